@@ -255,10 +255,12 @@ class DelayAfterChooser:
     of the given kinds (e.g. a queue `put`), it may be put to sleep until every other process is blocked or has only
     time-outs left (or for a bounded number of steps).  Exposes "reported, but not yet recorded" windows."""
 
-    def __init__(self, seed, kinds=("put",), prob=0.6, max_sleep=40, timeout_weight=0.05):
+    def __init__(self, seed, kinds=("put",), prob=0.6, max_sleep=40, timeout_weight=0.05, timeouts_while_asleep=False):
         self.rng = random.Random(seed)
         self.kinds, self.prob, self.max_sleep, self.tw = tuple(kinds), prob, max_sleep, timeout_weight
         self.asleep = {}
+        # let the others' time-outs fire while a process sleeps (a slow process: the rest of the system polls, times out, winds down)
+        self.timeouts_while_asleep = timeouts_while_asleep
 
     def choose(self, acts, sim):
         for k in list(self.asleep):
@@ -267,6 +269,8 @@ class DelayAfterChooser:
                 del self.asleep[k]
         awake = [i for i, a in enumerate(acts) if id(a.proc) not in self.asleep]
         cand = [i for i in awake if acts[i].progress]
+        if not cand and self.timeouts_while_asleep and self.asleep and awake:
+            return self.rng.choice(awake)
         if not cand:
             self.asleep.clear()
             cand = [i for i, a in enumerate(acts) if a.progress] or list(range(len(acts)))
